@@ -139,6 +139,65 @@ def nonlinear : Node → Bool
   | .bin op l r =>
     (op == .mul && mentionsVar l && mentionsVar r) || (op == .div && mentionsVar r) || nonlinear l || nonlinear r
 
+/-- the column names a tree mentions (NAME and PYTHON leaves), left to right, with repetitions -/
+def namesOf : Node → List String
+  | .leaf k t => match k with
+    | .value => []
+    | _ => [t]
+  | .un _ a => namesOf a
+  | .bin _ l r => namesOf l ++ namesOf r
+
+/-- the all-zero assignment: a divisor that mentions no column has the same value everywhere, so
+"defined at 0" says that no constant divisor is zero -/
+def env0 : String → Rat := fun _ => 0
+
+/-- the assignment that gives the column called `v` the value 1 and every other name 0 -/
+def indicator (v : String) : String → Rat := fun w => if w = v then 1 else 0
+
+/-- **which trees are accepted** (characterisation proved in `Proofs/C16Accept.lean`): the tree is a
+comma-separated list of scalar expressions with numeric literals, no product of two column-mentioning
+subexpressions and no division by one, no division by a constant zero, and every name is a column -/
+def acceptable (names : List String) (n : Node) : Prop :=
+  ∃ es, constraintsOf n = some es ∧ nonlinear n = false ∧ (∀ e ∈ es, (eval env0 e).isSome = true) ∧
+    ∀ x ∈ namesOf n, (colIndex names x).isSome = true
+
+def parsedAcceptable (names : List String) : Parsed → Prop
+  | .empty => True
+  | .ast n => acceptable names n
+  | .error _ => False
+
+/-- the specification is accepted: every string it makes the library parse is; a mapping is not empty -/
+def specAcceptable (names : List String) (parse : String → Parsed) : Spec → Prop
+  | .str s => parsedAcceptable names (parse s)
+  | .list ss => parsedAcceptable names (parse (",".intercalate ss))
+  | .dict items => items ≠ [] ∧ ∀ kv ∈ items, parsedAcceptable names (parse kv.1)
+
+/-- the linear combination `c₀*n₀ + c₁*n₁ + … + 0` a row of numbers stands for -/
+def linExpr : List String → List Rat → Expr
+  | n :: ns, c :: cs => .add (.mul (.lit c) (.var n)) (linExpr ns cs)
+  | _, _ => .lit 0
+
+/-! ### the formula a row of numbers stands for, as a tree with numeric-literal leaves -/
+
+/-- the text of a natural number as a VALUE token: its decimal digits and a point (`12.`; with the point
+Python's rule against leading zeros does not apply, so no case distinction is needed) -/
+def numeral (n : Nat) : String := String.ofList (Nat.toDigits 10 n ++ ['.'])
+
+def natNode (n : Nat) : Node := .leaf .value (numeral n)
+
+/-- a rational as a tree: `p. / q.` or `-(p. / q.)` -/
+def ratNode (q : Rat) : Node :=
+  if q.num < 0 then .un .neg (.bin .div (natNode q.num.natAbs) (natNode q.den))
+  else .bin .div (natNode q.num.natAbs) (natNode q.den)
+
+/-- `c₀ * n₀ + (c₁ * n₁ + (… + 0.))` -/
+def linNode : List String → List Rat → Node
+  | n :: ns, c :: cs => .bin .add (.bin .mul (ratNode c) (.leaf .name n)) (linNode ns cs)
+  | _, _ => natNode 0
+
+/-- the constraint `c₀ * n₀ + … = c` a row `(cs, c)` of a matrix form stands for -/
+def rowNode (names : List String) (cs : List Rat) (c : Rat) : Node := .bin .eq (linNode names cs) (ratNode c)
+
 /-- some string the specification makes the library parse is syntactically non-linear -/
 def specNonlinear (parse : String → Parsed) : Spec → Prop
   | .str s => ∃ n, parse s = .ast n ∧ nonlinear n = true
